@@ -291,7 +291,7 @@ theorem parseUpdate_reach_mp (od : OpaqueDec) (peer : Codec) (f : Fam) (v6 : Boo
   simp [hmapne, P.hfin]
 
 theorem reconcileAs4_nil : reconcileAs4 [] = [] := by
-  simp [reconcileAs4, removeFirst, findFirst]
+  simp [reconcileAs4, removeFirst, reconAgg, reconPath, findFirst]
 
 theorem parseUpdate_unreach_legacy (od : OpaqueDec) (peer : Codec) (es : List Entry) (rx : Bool)
     (hrx : rxOf peer Fam.ipv4 = some rx) (hne : es ≠ []) (hes : ∀ e ∈ es, IpEntryOk false e)
